@@ -318,6 +318,43 @@ theorem reads_of_index (s : State) (hm : s.opt.mode = 0) (hsorted : KVSorted s.k
     · intro st en; rw [hlv]; exact rangeScan_refines s hm b m hb' st en t hmok ht
     · intro pre mt; rw [hlv]; exact PrefixRefine.prefixScan_refines s hm b m hb' hms pre mt t hmok ht
 
+/-- a key+value-mode state whose index is the one the files of `s` denote, with their committed ids: its
+unpaged reads at `t ≥ now` are those of `s` -/
+theorem reads_of_rebuilt (s : State) (now : Nat) (h : MInv s now) (hm : s.opt.mode = 0) (s' : State)
+    (hkv' : s'.kv = kvOfLog (allRecs s.files)) (hm' : s'.opt.mode = 0)
+    (hids : ∀ id, id ∈ s'.committed ↔ id ∈ committedIds (allRecs s.files))
+    (t : Nat) (hle : now ≤ t) (ht : t < 2 ^ 64) (b : Bytes) :
+    (∀ k, (DB.get s' b k t).map (Option.map (·.value)) = (DB.get s b k t).map (Option.map (·.value))) ∧
+    ((getAll s' b t).map pairsOf = (getAll s b t).map pairsOf) ∧
+    (∀ st en, (rangeScan s' b st en t).map pairsOf = (rangeScan s b st en t).map pairsOf) ∧
+    (∀ pre mt, (prefixScan s' b pre 0 (-1) t mt).map pairsOf = (prefixScan s b pre 0 (-1) t mt).map pairsOf) := by
+  -- the old state
+  have hidxS : ∀ b m, aget? s.kv b = some m → IdxOk m := by
+    intro b m hbm p hp
+    obtain ⟨hf, hbd⟩ := h.idxok b m p hbm hp
+    exact ⟨hf, hbd, (h.hints b m p hbm hp).1⟩
+  have hcS : ∀ b m p, aget? s.kv b = some m → p ∈ m → s.committed.contains p.2.r.txid = true := by
+    intro b m p hbm hp; simpa using h.committedIdx b m p hbm hp
+  obtain ⟨g1, g2, g3, g4⟩ := reads_of_index s hm h.sorted hidxS hcS t ht b
+  -- the rebuilt state
+  have hL : ∀ x ∈ allRecs s.files, RecOk x.1 := fun x hx => ⟨(h.recs x hx).2.2, h.bounds x hx⟩
+  obtain ⟨hsorted', _, hidx', htx'⟩ := kvOfLog_props (allRecs s.files) hL
+  have hidxS' : ∀ b m, aget? s'.kv b = some m → IdxOk m := by
+    intro b m hbm p hp; rw [hkv'] at hbm; exact hidx' b m p hbm hp
+  have hcS' : ∀ b m p, aget? s'.kv b = some m → p ∈ m → s'.committed.contains p.2.r.txid = true := by
+    intro b m p hbm hp
+    rw [hkv'] at hbm
+    obtain ⟨x, hx, hxt⟩ := htx' b m p hbm hp
+    have : x.1.txid ∈ committedIds (allRecs s.files) := committed_of_marks _ h.marks x hx
+    have h2 : p.2.r.txid ∈ s'.committed := by rw [hxt]; exact (hids _).mpr this
+    simpa using h2
+  obtain ⟨r1, r2, r3, r4⟩ := reads_of_index s' hm' (by rw [hkv']; exact hsorted') hidxS' hcS' t ht b
+  have hlive : liveBucket (absBucket ((aget? s'.kv b).getD [])) t = liveBucket (absBucket ((aget? s.kv b).getD [])) t := by
+    rw [hkv']; exact live_rebuilt s now h b t hle ht
+  simp only [hlive] at r1 r2 r3 r4
+  exact ⟨fun k => by rw [r1 k, g1 k], by rw [r2, g2], fun st en => by rw [r3 st en, g3 st en],
+    fun pre mt => by rw [r4 pre mt, g4 pre mt]⟩
+
 /-- **Reopen after Merge (or between two files of it).** A key+value-mode state with the Merge invariant,
 reopened in key+value mode: `Open` succeeds, and `Get`, `GetAll`, `RangeScan`, and `PrefixScan` /
 `PrefixSearchScan` without offset and limit return, at the time the invariant speaks of and at every later
@@ -333,38 +370,8 @@ theorem reads_after_reopen (s : State) (now : Nat) (h : MInv s now) (hm : s.opt.
     (∀ pre mt, (prefixScan s' b pre 0 (-1) t mt).map pairsOf = (prefixScan s b pre 0 (-1) t mt).map pairsOf) := by
   intro s'
   obtain ⟨hok, hkv, hopt, hids⟩ := open_of_minv s now h opt
-  -- the old state
-  have hidxS : ∀ b m, aget? s.kv b = some m → IdxOk m := by
-    intro b m hbm p hp
-    obtain ⟨hf, hbd⟩ := h.idxok b m p hbm hp
-    exact ⟨hf, hbd, (h.hints b m p hbm hp).1⟩
-  have hcS : ∀ b m p, aget? s.kv b = some m → p ∈ m → s.committed.contains p.2.r.txid = true := by
-    intro b m p hbm hp; simpa using h.committedIdx b m p hbm hp
-  obtain ⟨g1, g2, g3, g4⟩ := reads_of_index s hm h.sorted hidxS hcS t ht b
-  -- the rebuilt state
-  have hL : ∀ x ∈ allRecs s.files, RecOk x.1 := fun x hx => ⟨(h.recs x hx).2.2, h.bounds x hx⟩
-  obtain ⟨hsorted', _, hidx', htx'⟩ := kvOfLog_props (allRecs s.files) hL
   have hm' : s'.opt.mode = 0 := by show (openDB opt s.files).1.opt.mode = 0; rw [hopt]; exact hmo
-  have hkv' : s'.kv = kvOfLog (allRecs s.files) := hkv
-  have hidxS' : ∀ b m, aget? s'.kv b = some m → IdxOk m := by
-    intro b m hbm p hp; rw [hkv'] at hbm; exact hidx' b m p hbm hp
-  have hcS' : ∀ b m p, aget? s'.kv b = some m → p ∈ m → s'.committed.contains p.2.r.txid = true := by
-    intro b m p hbm hp
-    rw [hkv'] at hbm
-    obtain ⟨x, hx, hxt⟩ := htx' b m p hbm hp
-    have : x.1.txid ∈ committedIds (allRecs s.files) := committed_of_marks _ h.marks x hx
-    have h2 : p.2.r.txid ∈ s'.committed := by rw [hxt]; exact (hids _).mpr this
-    simpa using h2
-  obtain ⟨r1, r2, r3, r4⟩ := reads_of_index s' hm' (by rw [hkv']; exact hsorted') hidxS' hcS' t ht b
-  -- the live pairs coincide
-  have hlive : liveBucket (absBucket ((aget? s'.kv b).getD [])) t = liveBucket (absBucket ((aget? s.kv b).getD [])) t := by
-    rw [hkv']; exact live_rebuilt s now h b t hle ht
-  simp only [hlive] at r1 r2 r3 r4
-  refine ⟨hok, ?_, ?_, ?_, ?_⟩
-  · intro k; rw [r1 k, g1 k]
-  · rw [r2, g2]
-  · intro st en; rw [r3 st en, g3 st en]
-  · intro pre mt; rw [r4 pre mt, g4 pre mt]
+  exact ⟨hok, reads_of_rebuilt s now h hm s' hkv hm' hids t hle ht b⟩
 
 /-! ### before Merge, after Merge, after the reopen -/
 
